@@ -488,7 +488,11 @@ func evalC10(c *C10Case) (class string, exp, obs hist.H, at int) {
 
 // ---- generation -------------------------------------------------------------------------
 
-var alphabet = []string{"a", "z", "é", "€", "\U0001F600", "\xff", "\xc3", "\xe2\x82", "\xed\xa0\x80", "\x80", "\xf0\x9f", "\x00"}
+// ASCII; the first and last rune of every encoded length (U+0080, U+07FF, U+0800, U+FFFF,
+// U+10000, U+10FFFF); U+FFFD validly encoded (it must stay ONE rune of width 3); invalid
+// bytes, truncated sequences, a surrogate half, overlong and out-of-range encodings; NUL.
+var alphabet = []string{"a", "z", "é", "€", "\U0001F600", "\xff", "\xc3", "\xe2\x82", "\xed\xa0\x80", "\x80", "\xf0\x9f", "\x00",
+	"\uFFFD", "\u0080", "\u07ff", "\u0800", "\uffff", "\U00010000", "\U0010FFFF", "\xc0\x80", "\xe0\x80\x80", "\xf4\x90\x80\x80", "\xbf", "\x7f"}
 
 // nthString enumerates all strings over the alphabet by length (0, 1, 2, ...).
 func nthString(n int) ([]byte, bool) {
@@ -584,9 +588,9 @@ func genC10(r *prng.R, kind string) *C10Case {
 var c10Kinds = []string{"string", "int", "slice", "slice-any", "map", "map-any", "chan"}
 
 func C10(j *core.Job) {
-	perBatch, exhaustive := 40000, 1+12+144+1728
+	perBatch, exhaustive := 40000, 1+24+576+13824
 	if j.Thorough() {
-		perBatch, exhaustive = 200000, 1+12+144+1728+20736
+		perBatch, exhaustive = 200000, 1+24+576+13824+331776
 	}
 	rep := j.Rep
 	for _, k := range c10Kinds {
